@@ -111,6 +111,10 @@ Theorem C09_src_next_number : forall base entries,
   (let n := x_next_backup_from_max (fold_right N.max x_backup_max_default (backup_nums base entries)) in
    if n <? U64 then Some n else None).
 Proof. exact x_next_backup_ok. Qed.
+(* the successor is checked in the source: at the largest number a u64 holds the step FAILS in every build (an unchecked
+   `+ 1` wraps to 0 in a release build and the rename replaces `name.~0~`: defect 381a1cc, found in round 7, repaired) *)
+Theorem C09_src_next_number_is_checked : x_next_backup_checked = true.
+Proof. exact x_next_backup_checked_ok. Qed.
 Theorem C09_src_suffix_pattern : x_backup_pattern = "^\~(\d+)\~$"%string.
 Proof. exact x_backup_pattern_ok. Qed.
 
@@ -137,6 +141,7 @@ Print Assumptions C09_auto_iff_backup_exists.
 Print Assumptions C09_kill_keeps_old.
 Print Assumptions C09_no_overflow_below_max.
 Print Assumptions C09_src_next_number.
+Print Assumptions C09_src_next_number_is_checked.
 Print Assumptions C09_src_suffix_pattern.
 Print Assumptions C09_src_needs_backup_table.
 Print Assumptions C09_src_pin_backup_get_backup_path.
